@@ -149,6 +149,22 @@ def qrToy : Img :=
 
 example : (QR.extractPureBits toyOps qrToy.rdStrict qrToy).toOption.map (fun b => (b.w, b.h)) = some (7, 7) := by decide
 example : QR.extractPureBits toyOps onePixel.rdStrict onePixel = .error .notFound := by decide
+/-- the float hypothesis of `qr_pure_in_bounds` cannot be dropped: under an interpretation whose `int(…)` is not
+    monotone (3 ↦ 50) the sampling loop reads `(1 + 50, …)` outside the 9x9 image — a panic with an unguarded
+    `Get`, while the code as it is (guarded `Get`) still answers (`qr_pure_total`) -/
+def badOps : FOps Int := { toyOps with toInt := fun a => if a = 3 then 50 else a }
+
+def outcome {α : Type} : Res α → String
+  | .ok _ => "ok"
+  | .error e => e.tag
+
+example : outcome (QR.extractPureBits badOps qrToy.rdStrict qrToy) = "PANIC" := by decide +kernel
+example : outcome (QR.extractPureBits badOps qrToy.rdGo qrToy) = "ok" := by decide +kernel
+example : ¬ QR.PureFloat badOps 9 := by
+  intro h
+  have := (h.sample_mono 7 8 3 4 (by decide) (by decide) (by decide) (by decide) (by decide) (by decide) (by decide)).2
+  exact absurd this (by decide)
+
 -- the hypotheses of `qr_pure_in_bounds` are satisfiable together: the toy floats on the 9x9 image
 example : Sat OnlyNotFound (fun b => b.WF ∧ b.w = b.h) (QR.extractPureBits toyOps qrToy.rdStrict qrToy) :=
   qr_pure_in_bounds toyOps qrToy 9 ⟨by decide, by decide⟩ (toy_pureFloat 9)
